@@ -76,12 +76,16 @@ theorem collectE_rn (hν : Adm ν) (bs : List Name) : ∀ e : Expr,
     rw [rnStack_cons] at this
     simp only [rnE, collectE, collectE_rn hν bs coll, this, List.map_append]
   | .call f args => by simp only [rnE, collectE, collectE_rn hν bs f, collectEs_rn hν bs args, List.map_append]
+  | .pipe l f args => by
+    simp only [rnE, collectE, collectE_rn hν bs l, collectE_rn hν bs f, collectEs_rn hν bs args, List.map_append]
   | .builtin _ args => by simp only [rnE, collectE, collectEs_rn hν bs args]
   | .arrLit _ args _ => by simp only [rnE, collectE, collectEs_rn hν bs args]
   | .arrNew args _ => by simp only [rnE, collectE, collectEs_rn hν bs args]
   | .record _ args => by simp only [rnE, collectE, collectEs_rn hν bs args]
   | .tuple args => by simp only [rnE, collectE, collectEs_rn hν bs args]
   | .enumRec _ _ args => by simp only [rnE, collectE, collectEs_rn hν bs args]
+  | .range args => by simp only [rnE, collectE, collectEs_rn hν bs args]
+  | .slice a idx => by simp only [rnE, collectE, collectE_rn hν bs a, collectEs_rn hν bs idx, List.map_append]
   | .lam (.mk id n ps r body cs) => by
     by_cases hn : n = ""
     · have := collectF_rn hν bs "" (.mk id n ps r body cs)
